@@ -159,7 +159,7 @@ def find_leading_zero_ec(crv, which, limit=4000):
 _RAW = {}
 
 
-def jkey(jwk, how="dict", private=True, params=None):
+def jkey(jwk, how="dict", private=True, params=None, same_object=False):
     """Build a fresh joserfc Key object from a reference JWK by the requested route.
 
     RSA private keys cost 40-85 ms to load (OpenSSL validates the primes), so for them the loaded
@@ -172,7 +172,8 @@ def jkey(jwk, how="dict", private=True, params=None):
         private = False
     src = jwk if private else rjwk.public_of(jwk)
     if how == "dict" or jwk["kty"] == "oct" and how != "bytes":
-        value = dict(src)
+        # same_object: the key is made from the very dict object the caller holds (and may edit later)
+        value = src if same_object else dict(src)
     elif how == "bytes":
         return OctKey.import_key(b64.dec(jwk["k"]), params)
     else:
